@@ -7,8 +7,10 @@ Line forms (tokens separated by blanks, parentheses are tokens, strings are hex 
   `cmp <ctx> <op> <value> <value> => T|F|none|panic`                 C08, values compared directly
   `cmpx <path> <op> <expr> <expr> => T|F|none|kept|dropped|panic`    C08 through expressions / Engine
   `ev <path> <expr> => some <value>|none|panic|abort`                C11
+  `evp <expr> => some <value>|none|panic|abort`                     C11/C08: eval_pattern_expr, vars = bindings
   `probe <path> <text> => ok|panic|abort`                            C11, no model (unmodelled forms)
   `c10 <expr> => <res> | <res> | <expr>`                             C10: unfolded, folded, folded AST
+  `c10w <expr> => kept|dropped`                                      C10: `.where(<expr>)` after parse()+Engine
   `c10t <expr> => <res>`                                             C10: value after parse()+Engine
 -/
 namespace Varpulis.Driver.ExprD
@@ -26,7 +28,8 @@ def F.canon : F → F
   | x => x
 
 def toFloat : F → Float
-  | .nan => 0.0 / 0.0
+  | .nan true => Float.ofBits 0xFFF8000000000000
+  | .nan false => Float.ofBits 0x7FF8000000000000
   | .inf true => -(1.0 / 0.0)
   | .inf false => 1.0 / 0.0
   | .fin s m e =>
@@ -38,21 +41,32 @@ def ofFloat (x : Float) : F :=
   let s := bits >>> 63 == 1
   let ex := (bits >>> 52) % 2048
   let frac := bits % (2 ^ 52)
-  if ex == 2047 then (if frac == 0 then .inf s else .nan)
+  if ex == 2047 then (if frac == 0 then .inf s else .nan s)
   else if ex == 0 then F.canon (.fin s frac (-1074))
   else F.canon (.fin s (frac + 2 ^ 52) ((ex : Int) - 1075))
 
-def lift2 (f : Float → Float → Float) (a b : F) : F := ofFloat (f (toFloat a) (toFloat b))
+/-- Lean's `Float.toBits` canonicalises NaN, so the sign of a NaN result follows the x86 rule here:
+a NaN operand is propagated (first operand first), a freshly generated NaN is the default (negative)
+one. Only `sort` (through `total_cmp`) can observe it; printed results never show it. -/
+def nanSign (a b : F) (r : F) : F :=
+  match r with
+  | .nan _ => (match a, b with
+    | .nan s, _ => .nan s
+    | _, .nan s => .nan s
+    | _, _ => .nan true)
+  | x => x
+
+def lift2 (f : Float → Float → Float) (a b : F) : F := nanSign a b (ofFloat (f (toFloat a) (toFloat b)))
 
 /-- C `fmod` (Rust `%` on f64) is exact: computed on the exact values -/
 def fmodF (x y : F) : F :=
   match x, y with
-  | .nan, _ => .nan
-  | _, .nan => .nan
-  | .inf _, _ => .nan
+  | .nan s, _ => .nan s
+  | _, .nan s => .nan s
+  | .inf _, _ => .nan true
   | .fin s m e, .inf _ => .fin s m e
   | .fin s mx ex, .fin _ my ey =>
-    if my == 0 then .nan
+    if my == 0 then .nan true
     else
       let k := min ex ey
       let X := mx * 2 ^ (ex - k).toNat
@@ -72,6 +86,37 @@ def powiF (a : F) (b : Int) : F :=
   let r := go 40 (toFloat a) b.natAbs 1.0
   ofFloat (if b < 0 then 1.0 / r else r)
 
+/-- marker for results whose text the driver cannot reproduce (non-ASCII case mapping, float and
+timestamp formatting beyond the exact short decimals): the case is then compared for panics only -/
+def marker : String := String.singleton (Char.ofNat 1)
+
+def asciiMap (f : Char → Char) (s : String) : String :=
+  if s.toList.all (fun c => c.toNat < 128) then String.ofList (s.toList.map f) else marker ++ s
+
+def stripTrailingZeros (cs : List Char) : List Char := (cs.reverse.dropWhile (· == '0')).reverse
+
+/-- `Display for f64` (shortest round-trip decimal, never scientific): reproduced when the exact
+decimal expansion has at most 15 significant digits — then it is the shortest one -/
+def fmtFloatD (f : F) : String :=
+  match F.canon f with
+  | .nan _ => "NaN"
+  | .inf s => if s then "-inf" else "inf"
+  | .fin s m e =>
+    let sign := if s then "-" else ""
+    if m == 0 then sign ++ "0"
+    else if 0 ≤ e then
+      let ds := (toString (m * 2 ^ e.toNat)).toList
+      if (stripTrailingZeros ds).length ≤ 15 then sign ++ String.ofList ds else marker
+    else
+      let k := (-e).toNat
+      let ds := (toString (m * 5 ^ k)).toList
+      if ds.length > 15 then marker
+      else
+        let padded := List.replicate (k + 1 - ds.length) '0' ++ ds
+        let ip := padded.take (padded.length - k)
+        let fp := stripTrailingZeros (padded.drop (padded.length - k))
+        sign ++ String.ofList ip ++ (if fp.isEmpty then "" else "." ++ String.ofList fp)
+
 def hw : FOps where
   add := lift2 (· + ·)
   sub := lift2 (· - ·)
@@ -82,9 +127,13 @@ def hw : FOps where
   powf := lift2 Float.pow
   fn1 := fun name x =>
     let f := toFloat x
-    ofFloat (match name with
+    nanSign x x <| ofFloat (match name with
       | "sqrt" => f.sqrt | "ln" => f.log | "log10" => f.log10 | "exp" => f.exp
       | "sin" => f.sin | "cos" => f.cos | "tan" => f.tan | _ => f)
+  lower := asciiMap Char.toLower
+  upper := asciiMap Char.toUpper
+  fmtFloat := fmtFloatD
+  fmtTs := fun _ => marker
 
 /-! ## tokens, hex strings -/
 
@@ -124,7 +173,8 @@ def hex (s : String) : String :=
 /-! ## parsing -/
 
 def parseFloat (t : String) : Option F :=
-  if t == "nan" then some .nan
+  if t == "nan" then some (.nan false)
+  else if t == "-nan" then some (.nan true)
   else if t == "inf" then some (.inf false)
   else if t == "-inf" then some (.inf true)
   else
@@ -340,7 +390,7 @@ end
 
 def showFloat (f : F) : String :=
   match F.canon f with
-  | .nan => "nan"
+  | .nan _ => "nan"
   | .inf true => "-inf"
   | .inf false => "inf"
   | .fin s m e => (if s then "-" else "+") ++ toString m ++ "p" ++ toString e
@@ -471,10 +521,24 @@ def stepCmpx (env : Env) (path : String) (op : CmpOp) (l r : Expr) (impl : Strin
     | _, _ => verdict model impl
   | _, _ => verdict model impl
 
+mutual
+partial def hasMarker : Value → Bool
+  | .str s => s.toList.any (· == Char.ofNat 1)
+  | .arr xs => xs.any hasMarker
+  | .map kvs => kvs.any fun kv => hasMarker kv.2
+  | _ => false
+end
+
+def resHasMarker : Res → Bool
+  | .val v => hasMarker v
+  | _ => false
+
 def stepEv (env : Env) (e : Expr) (impl : String) : String :=
   if impl == "panic" then "JUDGE C11 evaluation panicked"
   else if impl == "abort" then "JUDGE C11 evaluation aborted the process (stack overflow)"
-  else verdict (showRes (eval hw .fixed env e)) impl
+  else
+    let r := eval hw .fixed env e
+    if resHasMarker r then "SKIP" else verdict (showRes r) impl
 
 def stepC10 (env : Env) (e : Expr) (impl : String) : String :=
   if impl == "panic" then "JUDGE C10 folding or evaluating the expression panicked"
@@ -490,6 +554,7 @@ def stepC10 (env : Env) (e : Expr) (impl : String) : String :=
         s!"KNOWN[C10-identity-rewrite] folded {f} vs unfolded {u}"
       else s!"JUDGE C10 folded expression evaluates to {f}, unfolded to {u}"
     else if showExpr fe' != fe then s!"DIFF model={mu} | {mf} | {showExpr fe'}"
+    else if resHasMarker (eval hw .fixed env e) || resHasMarker (eval hw .fixed env fe') then "SKIP"
     else if mu != u || mf != f then s!"DIFF model={mu} | {mf} | {showExpr fe'}"
     else "ok"
   | _ => "BADLINE"
@@ -500,6 +565,7 @@ def stepC10t (env : Env) (e : Expr) (impl : String) : String :=
   if impl == "panic" || impl == "abort" then s!"JUDGE C10 the folded program {impl}s" else
   let mu := showRes (eval hw .fixed env e)
   let mf := showRes (eval hw .fixed env (fold hw true e))
+  if resHasMarker (eval hw .fixed env e) then "SKIP" else
   if impl == mu then "ok"
   else if unsafeIdent hw env e then s!"KNOWN[C10-identity-rewrite] program gives {impl}, unfolded expression {mu}"
   else if impl == mf then s!"JUDGE C10 folded program gives {impl}, the unfolded expression {mu}"
@@ -531,6 +597,15 @@ def step (st : St) (line : String) : St × String :=
     match parseExpr rest with
     | some (e, []) => (st, stepEv st.env e impl)
     | _ => (st, "BADLINE ev")
+  | "evp" :: rest =>
+    match parseExpr rest with
+    | some (e, []) =>
+      (st, if impl == "panic" then "JUDGE C11 pattern expression panicked"
+           else if impl == "abort" then "JUDGE C11 pattern expression aborted the process"
+           else
+             let r := evalPat hw .fixed st.env.binds e
+             if resHasMarker r then "SKIP" else verdict (showRes r) impl)
+    | _ => (st, "BADLINE evp")
   | "probe" :: _ =>
     (st, if impl == "ok" then "ok" else if impl == "panic" then "JUDGE C11 evaluation panicked"
          else "JUDGE C11 evaluation aborted the process (stack overflow)")
@@ -538,6 +613,19 @@ def step (st : St) (line : String) : St × String :=
     match parseExpr rest with
     | some (e, []) => (st, stepC10 st.env e impl)
     | _ => (st, "BADLINE c10")
+  | "c10w" :: rest =>
+    match parseExpr rest with
+    | some (e, []) =>
+      let ru := eval hw .fixed st.env e
+      let rf := eval hw .fixed st.env (fold hw true e)
+      let sh (r : Res) := if keeps r then "kept" else "dropped"
+      (st, if impl == "panic" || impl == "abort" then s!"JUDGE C10 the folded program {impl}s"
+           else if resHasMarker ru then "SKIP"
+           else if impl == sh ru then "ok"
+           else if unsafeIdent hw st.env e then s!"KNOWN[C10-identity-rewrite] .where of the folded program: {impl}, of the unfolded expression: {sh ru}"
+           else if impl == sh rf then s!"JUDGE C10 .where of the folded program: {impl}, of the unfolded expression: {sh ru}"
+           else s!"DIFF model={sh ru} (folded {sh rf})")
+    | _ => (st, "BADLINE c10w")
   | "c10t" :: rest =>
     match parseExpr rest with
     | some (e, []) => (st, stepC10t st.env e impl)
